@@ -432,6 +432,32 @@ fn cert_sweep(cx: &Ctx, e: &Epoch, pairs: bool) {
                     }
                 }
             }
+            // signature material moved between the two halves of a mixed certificate (bitmasks,
+            // slot, hash and stake untouched): only the SUM of the two aggregates is unchanged
+            match &base {
+                MCert::NotarFallback(MNfCert { a1: Some(x), a2: Some(y), .. }) | MCert::Skip(MSkipCert { a1: Some(x), a2: Some(y), .. }) => {
+                    let (sx, sy) = (x.sig, y.sig);
+                    let with = |nx: [u8; 96], ny: [u8; 96]| -> MCert {
+                        let mut m = base.clone();
+                        match &mut m {
+                            MCert::NotarFallback(c) => { c.a1.as_mut().unwrap().sig = nx; c.a2.as_mut().unwrap().sig = ny; }
+                            MCert::Skip(c) => { c.a1.as_mut().unwrap().sig = nx; c.a2.as_mut().unwrap().sig = ny; }
+                            _ => {}
+                        }
+                        m
+                    };
+                    if sx != sy {
+                        judge_cert(cx, e, &with(sy, sx), "aggregate-signatures-swapped-between-halves", &bn);
+                    }
+                    // d = an individual honest signature; a + d, b - d
+                    let dv: MVote = to_mirror(&honest_vote(e, 0, 7, &HA, s1[0]));
+                    let d = mvote_fields(&dv).3;
+                    if let (Some(nx), Some(ny)) = (sig_plus(&sx, &d, false), sig_plus(&sy, &d, true)) {
+                        judge_cert(cx, e, &with(nx, ny), "signature-moved-between-halves", &bn);
+                    }
+                }
+                _ => {}
+            }
             // bitmask manipulations on the first present half
             let edit = |f: &dyn Fn(&mut MAgg)| -> MCert {
                 let mut m = base.clone();
@@ -525,6 +551,29 @@ fn plus_point_outside_subgroup(sig: &[u8; 96]) -> Option<[u8; 96]> {
     }
 }
 
+/// `a + d` / `a - d` on uncompressed G1 signature bytes (None if something does not deserialize).
+fn sig_plus(a: &[u8; 96], d: &[u8; 96], negate: bool) -> Option<[u8; 96]> {
+    use blst::*;
+    // SAFETY: plain C arithmetic on stack values of the right size
+    unsafe {
+        let (mut pa, mut pd) = (blst_p1_affine::default(), blst_p1_affine::default());
+        if blst_p1_deserialize(&mut pa, a.as_ptr()) != BLST_ERROR::BLST_SUCCESS || blst_p1_deserialize(&mut pd, d.as_ptr()) != BLST_ERROR::BLST_SUCCESS {
+            return None;
+        }
+        let (mut ja, mut jd) = (blst_p1::default(), blst_p1::default());
+        blst_p1_from_affine(&mut ja, &pa);
+        blst_p1_from_affine(&mut jd, &pd);
+        if negate {
+            blst_p1_cneg(&mut jd, true);
+        }
+        let mut sum = blst_p1::default();
+        blst_p1_add_or_double(&mut sum, &ja, &jd);
+        let mut out = [0u8; 96];
+        blst_p1_serialize(out.as_mut_ptr(), &sum);
+        Some(out)
+    }
+}
+
 pub fn run(tier: Tier) -> i32 {
     let report = Report::new("C09", tier, "exploration");
     // mirror self-test
@@ -583,7 +632,7 @@ pub fn run(tier: Tier) -> i32 {
     let cov = json!({
         "evaluations": cx.evals.load(Ordering::Relaxed),
         "distinct_nontrivial": cx.nontrivial.load(Ordering::Relaxed),
-        "rule": "per epoch: every vote kind x signer with every mutation of the menu (kind re-tag, slot, hash, signer incl. out of range, signatures transplanted from the same validator's other votes / from other validators, byte corruptions), and for every certificate type every signer subset (all pairs of halves, overlapping included, for mixed types up to n=4) plus the certificate mutation menu (declared stake, slot, hash, type re-tags, halves swapped/duplicated, bitmask shorter/longer/empty/garbage/out-of-range/2048 bits, aggregate corrupted, replaced, or shifted by a curve point outside the signature subgroup - which leaves every pairing unchanged); every case goes through the network decoder and ValidatedVote/ValidatedCert::try_new; oracle = signature bytes equal the unique honest (deterministic BLS) signature for the claimed fields and distinct signer stake meets the type's threshold; non-trivial = anything but an unmodified above-threshold message; all cases distinct by construction",
+        "rule": "per epoch: every vote kind x signer with every mutation of the menu (kind re-tag, slot, hash, signer incl. out of range, signatures transplanted from the same validator's other votes / from other validators, byte corruptions), and for every certificate type every signer subset (all pairs of halves, overlapping included, for mixed types up to n=4) plus the certificate mutation menu (declared stake, slot, hash, type re-tags, halves swapped/duplicated, bitmask shorter/longer/empty/garbage/out-of-range/2048 bits, aggregate corrupted, replaced, or shifted by a curve point outside the signature subgroup - which leaves every pairing unchanged - and, for mixed certificates, signature material moved between the two halves so that only their sum is preserved); every case goes through the network decoder and ValidatedVote/ValidatedCert::try_new; oracle = signature bytes equal the unique honest (deterministic BLS) signature for the claimed fields and distinct signer stake meets the type's threshold; non-trivial = anything but an unmodified above-threshold message; all cases distinct by construction",
         "exhaustive": true,
         "epochs": epochs,
         "admitted": cx.accepted.load(Ordering::Relaxed),
